@@ -282,6 +282,20 @@ func (h *faultHarness) Run(t *testing.T, ci any) *Outcome {
 				}
 			}
 		}
+		// slowness is not failure: a driver call that takes simulated seconds to start answering, or streams slowly
+		if !c.Knobs.Direct {
+			slowed := 0
+			for _, rec := range base.trace {
+				if slowed >= 6 {
+					break
+				}
+				plans = append(plans, []FaultSpec{{Call: rec.Idx, Mode: "slow", J: int(c.Knobs.Sched>>uint(rec.Idx%32)) % 6}})
+				slowed++
+				if rec.Stream && rec.Delivered > 0 {
+					plans = append(plans, []FaultSpec{{Call: rec.Idx, Mode: "slowmid"}})
+				}
+			}
+		}
 		// sampled double faults
 		rr := NewRand(c.Knobs.Sched, 77)
 		single := len(plans)
@@ -327,6 +341,17 @@ func (h *faultHarness) Run(t *testing.T, ci any) *Outcome {
 			o.stat("fault_planned_not_reached", 1)
 			continue
 		}
+		if slowOnly(plan) {
+			if v := h.judgeSlow(c, kind, base, er, plan); v != nil {
+				d := *c
+				d.Faults = plan
+				cb, _ := json.Marshal(d)
+				v.Detail += "\nfault plan: " + jsonStr(plan) + "\nreplay case with the fault pinned: " + string(cb)
+				v.Stats, v.Execs = o.Stats, o.Execs
+				return v
+			}
+			continue
+		}
 		if v := h.judge(c, kind, er, plan); v != nil {
 			d := *c
 			d.Faults = plan
@@ -352,6 +377,56 @@ func renderGraphs(gs []GraphData) map[string][]string {
 		}
 	}
 	return m
+}
+
+func slowOnly(plan []FaultSpec) bool {
+	for _, f := range plan {
+		if f.Mode != "slow" && f.Mode != "slowmid" {
+			return false
+		}
+	}
+	return len(plan) > 0
+}
+
+// judgeSlow: a driver that is slow but does not fail is not a failing driver - the statement behaves as in the
+// fault-free run (same success / failure, for SELECT the same rows), returns and leaves nothing behind.
+func (h *faultHarness) judgeSlow(c *FaultCase, kind string, base, er *execResult, plan []FaultSpec) *Outcome {
+	if v := h.judge(c, kind, er, nil); v != nil {
+		v.Class = strings.Replace(v.Class, ":fault-free", ":slow-driver", 1)
+		return v
+	}
+	mk := func(cls, f string, a ...any) *Outcome {
+		v := violation("C20:slow-driver:"+cls+":"+kind, f, a...)
+		v.Detail = "statement: " + c.Text + "\n" + v.Detail
+		return v
+	}
+	if (er.err == nil) != (base.err == nil) {
+		return mk("outcome-differs", "with a slow (not failing) driver call the statement returns err=%v, without it err=%v", er.err, base.err)
+	}
+	if er.err == nil && kind == "select" && base.tbl != nil && er.tbl != nil {
+		a, b := tableRowsText(base.tbl), tableRowsText(er.tbl)
+		if !equalStrings(a, b) {
+			extra, missing := multisetDiff(b, a)
+			return mk("rows-differ", "with a slow (not failing) driver call the rows differ: extra=%q missing=%q", extra, missing)
+		}
+	}
+	return nil
+}
+
+// tableRowsText renders the rows of a table as sorted strings (blank node ids canonicalised).
+func tableRowsText(t *table.Table) []string {
+	var out []string
+	bs := append([]string{}, t.Bindings()...)
+	sort.Strings(bs)
+	for _, r := range t.Rows() {
+		var parts []string
+		for _, b := range bs {
+			parts = append(parts, b+"="+fmt.Sprint(r[b]))
+		}
+		out = append(out, volatileRe.ReplaceAllString(strings.Join(parts, " "), "X"))
+	}
+	sort.Strings(out)
+	return out
 }
 
 // judge applies the C20 oracle to one execution. plan == nil: fault-free run.
